@@ -22,7 +22,9 @@ CHECKS = {
             "position, at drawn multi-cut sets, and truncated at every position; the caller must see exactly the planned "
             "status/reason/version/headers/body, or an error for an incomplete message.",
             "Own wire builders (vf/peers/h1.py, h2.py on hyperframe+hpack) define ground truth; responses are sampled, cut "
-            "positions exhaustive per response up to 1200 wire bytes (structural offsets + grid beyond).",
+            "positions exhaustive per response up to 1200 wire bytes (structural offsets + grid beyond). Layer real-backends repeats the "
+            "ground-truth comparison through httpcore's own sync/anyio/trio backends over loopback sockets with real TLS (segmentation there is "
+            "the kernel's, not controlled).",
             "3 C02"),
     "C03": ("exploration",
             "Hypothesis-generated requests decoded by an independent parser (own HTTP/1.1 parser; hyperframe+hpack for HTTP/2) and compared with the caller's request",
@@ -48,7 +50,9 @@ CHECKS = {
             "same enumerated and generated runs as C05 with a stream ledger oracle (opened / owned / closed) over the simulated network",
             "Every run of the C05 enumeration is followed by pool.aclose(); every open stream must be reachable from a pooled connection before "
             "the close and none may be open after it.",
-            "ownership = reachability through httpcore objects from pool.connections; 'open' means the simulated pipe.",
+            "ownership = reachability through httpcore objects from pool.connections; 'open' means the simulated pipe. Layer real-backends: "
+            "real sockets - after pool.close() the server side must have seen the client's close on every connection and no socket may be "
+            "dropped unclosed (ResourceWarning ledger).",
             "3 C06"),
     "C07": ("exploration",
             "same generated concurrent histories; quiescence invariant (no serviceable queued request) + deadlock / livelock detection by the harness scheduler",
@@ -112,14 +116,17 @@ CHECKS = {
             "Arbitrary peer bytes at every stage (HTTP/1.1 head/body/chunking, HTTP/2 frames of any type/flags/length/stream id with HPACK defects, SOCKS5 "
             "and CONNECT replies) from grammars, mutations and coverage-guided fuzzing, every documented backend exception at every network op of 9 "
             "connection kinds, and caller-invalid requests: only documented httpcore exceptions of the right class may reach the caller, and the call ends.",
-            "Replay peer semantics (vf/peers/replay.py); libFuzzer campaigns are reproducible only through their saved case files.",
+            "Replay peer semantics (vf/peers/replay.py); libFuzzer campaigns are reproducible only through their saved case files. Layer "
+            "real-backends injects real network faults (RST, FIN, silence, TLS alerts / bad records, refused / hanging connects) under "
+            "httpcore's own backends; verdicts there are made independent of machine load (DESIGN 8.7).",
             "3 C15"),
     "C16": ("exploration",
             "exhaustive configuration matrix over the op trace of a simulated backend (timeout argument of every network op) + virtual-clock pool-timeout schedules",
             "Every combination of connect/read/write/pool in {absent, None, 0, value} x 14 connection kinds x 3 request shapes, two requests "
             "with different dictionaries per cell, sync and async: the timeout argument of every connect/start_tls/read/write op is compared "
             "with the issuing request's configuration.",
-            "SimNet records the arguments of every backend call; real sockets are not involved.",
+            "SimNet records the arguments of every backend call. Layer real-backends checks with real sockets that the sync/anyio/trio "
+            "backends apply the value: a silent peer must yield the matching Timeout class, not before 0.06 s and not 5 s late.",
             "3 C16"),
     "C17": ("exploration",
             "bounded-exhaustive enumeration (cut subsets x max_bytes sequences) plus Hypothesis sampling; oracle = exact byte stream the peer sent after the head",
@@ -132,7 +139,8 @@ CHECKS = {
             "exhaustive line-by-line re-translation with the repository's own unasync_line + generated sync/async differential",
             "Every line of every _async/_sync file pair is re-translated and compared (exhaustive over the source); generated "
             "single-caller scenarios are run through both API variants and all observables compared.",
-            "Trusts scripts/unasync.py of the working tree as the reference translator and SimNet as the common peer.",
+            "Trusts scripts/unasync.py of the working tree as the reference translator and SimNet as the common peer; the differential also "
+            "runs the async classes on trio, and (layer real-backends) all four variants over real sockets.",
             "3 C18"),
     "C19": ("exploration",
             "Hypothesis property tests against an own RFC 3986 splitter (reference model) plus origin/round-trip/Host laws",
@@ -189,6 +197,9 @@ def main():
             {"name": "simnet-hypothesis", "path": "vf/", "serves_properties": sorted(CHECKS),
              "kind_free_text": "Hypothesis-generated and enumerated scenarios executed against the real httpcore on a simulated "
                                "network (vf/simnet.py) with independent peer models (vf/peers) and explicit oracles (vf/props)"},
+            {"name": "realnet-hypothesis", "path": "vf/realnet.py", "serves_properties": ["C02", "C06", "C15", "C16", "C18"],
+             "kind_free_text": "Hypothesis-generated scenarios with real network faults executed through httpcore's own sync/anyio/trio "
+                               "backends over loopback TCP with real TLS against the same peer models (vf/props/real.py)"},
         ],
         "checks": checks,
         "notes": "Property-based testing / fuzzing only. Known genuine defects: known_findings.json. Replay: ./check <ID> --replay <file>.",
